@@ -406,7 +406,10 @@ class Interp:
         if k == 'use':
             return self.op(st, fid, rv['o'])
         if k in ('ref', 'rawptr'):
-            return ('addr', self.lv(st, fid, rv['place']))
+            lvp = self.lv(st, fid, rv['place'])
+            if lvp[0] == 'deref':
+                return lvp[1]          # &*p == p (address identity)
+            return ('addr', lvp)
         if k == 'cast':
             v = self.op(st, fid, rv['o'])
             kind = rv.get('kind', '')
